@@ -13,7 +13,7 @@ from .. import fs as simfs
 
 PROP = 'C09'
 LEVEL = 'exploration'
-OWN = ('snapshot_state_mismatch', 'snapshot_position_mismatch', 'dump_not_decodable', 'dump_foreign', 'failed_load_acknowledged', 'received_snapshot_corrupt',
+OWN = ('snapshot_state_mismatch', 'snapshot_position_mismatch', 'dump_not_decodable', 'dump_foreign', 'failed_load_acknowledged', 'received_snapshot_corrupt', 'compacted_without_snapshot',
        'lagging_node_not_caught_up', 'log_empty', 'loaded_state_mismatch')
 INVARIANTS = OWN + ('state_mismatch', 'applied_back')
 for _i in OWN:
@@ -179,6 +179,12 @@ class SnapOracle(RaftOracle):
                 if blob is not None and self.memblob.get(touched) != id(blob):
                     self.memblob[touched] = id(blob)
                     self.queue.append((touched, bytes(blob), 'in-memory snapshot'))
+                lg = log_of(n)
+                if blob is None and len(lg) > 0 and lg[0][1] > 1 and priv(ser, 'Serializer', 'pid') == 0 and not h.doomed:
+                    # "after compaction a node can still bring any lagging or new follower up to date": a node whose log
+                    # no longer starts at the beginning must hold the snapshot that replaces the missing part
+                    self.flag('compacted_without_snapshot', 'host %d: its log starts at position %d but it holds no snapshot (in-memory mode): it can never bring a follower that is further behind up to date' % (
+                        touched, lg[0][1]))
         q, self.queue = self.queue, []
         for host, raw, where in q:
             self._verify(host, raw, where)
